@@ -1,7 +1,11 @@
 /-
   C13  Shutdown refuses new work, answers every pending command, never blocks.
 
-  All statements are about Layer A (CachedModel/State.lean).  Quantifiers: every state (or every state with the
+  The statements in this file are about Layer A (CachedModel/State.lean); the same property at ACTION granularity
+  (shutdown() as eleven separately scheduled actions racing worker, sweeper and other clients) is in
+  LayerB/Theorems.lean (`C13_layerB_*`, `C18_layerB_shutdown_*`), and LayerB/Refine.lean shows that a Layer A step
+  is exactly a non-preempted Layer B run (shutdown included); both are imported here so that they are built and
+  audited with this module.  Quantifiers: every state (or every state with the
   queue invariant `QInv` of Lemmas/Queue.lean, which holds at every reachable state: `qinv_reach`), every client,
   key, value, weight, event, oracle.  Reading guide:
     * refuses new work: once the flag is set every write returns `Err` and every read returns nothing, the state
@@ -17,6 +21,8 @@
   store still write into it (`C11_shutdown_corner`).
 -/
 import CachedProofs.Properties.C11
+import CachedProofs.LayerB.Theorems
+import CachedProofs.LayerB.Refine
 
 namespace Cached
 
